@@ -400,6 +400,40 @@ static void mon_c12(ctx *c, lgraph *g)
         free(bestin);
         vh_count("bestpaths_checked", 1);
     }
+    /* the text and the segments reported for the best path are those of the nodes the path visits: every node entered by a link of
+     * the chain best -> pred -> pred ..., first the node the first link leaves; fillers and the sentence markers are not part of the
+     * text (recognised by spelling, as everywhere in these monitors) */
+    {
+        latnode_t *chain[512]; int nc = 0, q, ok = 1; latlink_t *l; vh_sb want; const char *got; seg_iter_t *si; int ns = 0, prev_ef = -2;
+        for (l = best; l && nc < 510; l = ps_latlink_pred(l)) { latnode_t *src = NULL; (void)ps_latlink_nodes(l, &src); chain[nc++] = src; }
+        if (l) ok = 0;   /* longer than the buffer: not judged */
+        if (ok) {
+            latnode_t *src0 = NULL, *dst = ps_latlink_nodes(best, &src0); int last_real = 0;
+            /* consecutive links must share a node */
+            for (l = best, q = 0; l && ps_latlink_pred(l); l = ps_latlink_pred(l), ++q) { latnode_t *a = NULL; latnode_t *b = ps_latlink_nodes(ps_latlink_pred(l), &a); if (b != chain[q]) { vh_viol("bestpath_chain_broken", "best-path link %d leaves node %s@%d but its predecessor link enters %s@%d", q, ps_latnode_word(dag, chain[q]), chain[q]->sf, ps_latnode_word(dag, b), b->sf); ok = 0; break; } }
+            if (ok && chain[nc - 1] != dag->start) { vh_viol("bestpath_not_from_start", "the first link of the best path leaves %s@%d, not the start node", ps_latnode_word(dag, chain[nc - 1]), chain[nc - 1]->sf); ok = 0; }
+            if (ok) {
+                vh_sb_init(&want);
+                for (q = nc - 1; q >= -1; --q) { latnode_t *nd = q >= 0 ? chain[q] : dst; const char *w = ps_latnode_baseword(dag, nd); if (!w || vd_is_filler_word(w)) continue; vh_sb_printf(&want, "%s%s", want.n ? " " : "", w); if (q == -1) last_real = 1; }
+                vh_ctx("lattice_hyp"); got = lattice_hyp(dag, best);
+                if (strcmp(got ? got : "(null)", want.s ? want.s : "")) vh_viol(last_real ? "bestpath_text_differs_from_path|end_node_is_a_word" : "bestpath_text_differs_from_path", "lattice_hyp says \"%s\", the nodes on the best path read \"%s\"", got ? got : "(null)", want.s ? want.s : "");
+                vh_count("bestpath_texts_compared_with_path", 1); if (last_real) vh_count("bestpaths_ending_in_a_real_word", 1);
+                vh_sb_free(&want);
+                /* segments: one per node of the path, in order, with the node's word and start frame; end frames do not run backwards */
+                vh_ctx("lattice_seg_iter");
+                for (si = lattice_seg_iter(dag, best); si; si = seg_iter_next(si)) {
+                    int sf, ef; const char *w = seg_iter_word(si); latnode_t *nd = ns < nc ? chain[nc - 1 - ns] : (ns == nc ? dst : NULL);
+                    seg_iter_frames(si, &sf, &ef);
+                    if (!nd) { vh_viol("bestpath_segments_too_many", "the best path visits %d nodes, its segment iterator yields more", nc + 1); seg_iter_free(si); break; }
+                    if (strcmp(w ? w : "(null)", ps_latnode_word(dag, nd)) || sf != nd->sf) { vh_viol("bestpath_segment_differs_from_node", "segment %d is %s@%d, node %d of the best path is %s@%d", ns, w ? w : "(null)", sf, ns, ps_latnode_word(dag, nd), nd->sf); seg_iter_free(si); break; }
+                    if (ef < sf - 1 || sf <= prev_ef - 0 - 1) { vh_viol("bestpath_segment_times", "segment %d (%s) spans %d..%d after a segment ending at %d", ns, w, sf, ef, prev_ef); seg_iter_free(si); break; }
+                    prev_ef = ef; ++ns;
+                }
+                if (!si && ns != nc + 1 && ns > 0) vh_viol("bestpath_segments_too_few", "the best path visits %d nodes, its segment iterator yields %d", nc + 1, ns);
+                vh_count("bestpath_segmentations_compared_with_path", 1);
+            }
+        }
+    }
     /* a caller may walk the edges itself and stop half-way (the traversal state lives in the lattice): what comes next must not care */
     if (vh_chance(c->r, 0.25)) {
         int steps = vh_range(c->r, 0, 8), q; latlink_t *l;
